@@ -136,6 +136,18 @@ fn from_json(w: &Value) -> Option<Variant> {
     }
 }
 
+/// whitespace-free ASCII signature of a panic site: file and the words of the message, no quoted data
+pub fn ascii_site(site: &str) -> String {
+    let s: String = site_sig(site).chars().map(|c| if c.is_ascii_alphanumeric() || "._/:#-".contains(c) { c } else { '_' }).collect();
+    let mut out = String::new();
+    for c in s.chars() {
+        if !(c == '_' && out.ends_with('_')) {
+            out.push(c);
+        }
+    }
+    out.trim_matches('_').to_string()
+}
+
 fn attr_id(a: &str) -> u32 {
     match a {
         "Value" => AttributeId::Value as u32,
@@ -266,7 +278,7 @@ pub fn run_case(case: &Value, out: &mut Obs) {
                 }
                 Err(site) => {
                     obj.insert("fail".into(), json!("panic"));
-                    obj.insert("site".into(), json!(site_sig(&site).replace(' ', "_")));
+                    obj.insert("site".into(), json!(ascii_site(&site)));
                     obj.insert("status".into(), json!("?"));
                     obj.insert("cls".into(), json!("?"));
                     obj.insert("value".into(), json!({"t": "None", "a": false, "v": []}));
